@@ -93,6 +93,34 @@ def check(P, R):
              f'_raise, so the catch-all answers 500 with a traceback',
              why='reading the form, the files, the JSON or the raw body either succeeds or produces a 4xx', key_extra=cname)
     R.require(n_conv >= 1, 'no escape through BaseRequest._raise found: the conversion route vanished')
+    # the exemption above covers what a server validates (a digit string); an *empty* CONTENT_LENGTH is legal (PEP 3333: "may be empty or missing") and is what
+    # gateways pass for chunked requests: it must not reach int()
+    cl = cls_.methods.get('content_length')
+    R.require(cl is not None, 'BodyMixin.content_length missing')
+    n_int = 0
+    for c in walk_shallow(cl.node):
+        if not (isinstance(c, ast.Call) and dotted(c.func) == 'int' and c.args):
+            continue
+        ns_ = cl.cfg.node_of_stmt(c)
+        a = T.expand(cl, c.args[0], ns_[0]) if ns_ else c.args[0]
+        if 'CONTENT_LENGTH' not in src(a):
+            continue
+        n_int += 1
+        guarded_or = isinstance(a, ast.BoolOp) and isinstance(a.op, ast.Or) and ((isinstance(a.values[-1], ast.Constant) and bool(a.values[-1].value)) or (isinstance(a.values[-1], ast.UnaryOp) and isinstance(a.values[-1].operand, ast.Constant)))
+        guarded_if = isinstance(a, ast.IfExp)
+        tr = enclosing(c, ast.Try)
+        guarded_try = tr is not None and any(h.type is None or 'ValueError' in src(h.type) or src(h.type) == 'Exception' for h in tr.handlers)
+        guarded_stmt = enclosing(c, ast.If) is not None
+        raw = isinstance(a, (ast.Subscript,)) or (isinstance(a, ast.Call) and call_attr(a) in ('get', 'pop', '__getitem__'))
+        ok = guarded_or or guarded_if or guarded_try or guarded_stmt
+        if not ok and not raw:
+            R.undecided('C12.a', cl, c, 'content_length', f'how `{short(a)}` treats an empty CONTENT_LENGTH has no recogniser')
+            continue
+        R.ob('C12.a', cl, c, ok, text=f'`{short(c)}`: an empty CONTENT_LENGTH does not reach int()', detail='' if ok else
+             f'`{short(c)}` converts the raw variable: an empty CONTENT_LENGTH (legal, and what CGI-style gateways pass for a chunked body) raises ValueError outside every '
+             f'RequestError handler - request.body / forms / json answer 500',
+             why='reading the form, the files, the JSON or the raw body either succeeds or produces a 4xx', key_extra='empty-content-length')
+    R.require(n_int >= 1, 'content_length: the int() conversion of CONTENT_LENGTH was not found')
     R.unresolved = sorted(set(E.unresolved))[:200]
 
     # ---- b
